@@ -55,6 +55,10 @@ type rig struct {
 func newRig(member string, order uint64) (*rig, error) {
 	r := &rig{rtcpSink: &kit.RTCPSink{}, rtpSink: &kit.RTPSink{}, rtpSrc: &kit.ByteSource{}, rtcpSrc: &kit.ByteSource{}}
 	names := []string{member}
+	withJB := member == "chain-jb" // the pass-through members around the jitter buffer: what it hands out is an older packet than the one just read
+	if withJB {
+		member = "chain"
+	}
 	if member == "chain" {
 		names = append([]string(nil), kit.AllNames...)
 		if order != 0 { // which member sees a packet first (and what it leaves in the shared attributes) depends on the order
@@ -69,8 +73,11 @@ func newRig(member string, order uint64) (*rig, error) {
 		}
 	}
 	for _, n := range names {
-		if member == "chain" && (n == "pacing" || n == "cc-leaky-bucket" || n == "jitterbuffer") {
+		if member == "chain" && (n == "pacing" || n == "cc-leaky-bucket" || n == "jitterbuffer" && !withJB) {
 			continue // the chain keeps delivery synchronous; these three are exercised on their own
+		}
+		if withJB && (n == "cc-noop-pacer" || n == "flexfec") {
+			continue // (observation a: repair packets through an inner estimator)
 		}
 		if member == "chain" && (n == "cc-user-pacer" || order != 0 && n == "cc-noop-pacer") { // (one cc member per chain)
 			// inside an FEC or RTX member the estimator's pacer answers "unknown ssrc" for repair packets and the error is joined into the
